@@ -8,6 +8,19 @@ BASELINE = ("cd /repo && /venv/bin/python -m pytest -ra -q -p no:cacheprovider -
 
 # id -> (engine spec modules, technique, level text, level note, design ref)
 CLAIMED = {
+ "C04": ("spec/dsp/Filter.tla + FilterC04.tla + trace/FilterTrace.tla",
+         "TLC exhaustive check that the generated-code register machine equals the difference equation on "
+         "linear-form samples + replay of every TLC state into the real filter through every construction and "
+         "memory route + TLC judgement of recorded runs of random higher-order filters",
+         "The specification models the generated generator (registers, shift order, gain handling, all-zero and "
+         "refusal branches) and the difference equation; TLC proves them equal on the whole coefficient grid with "
+         "symbolic samples (linear forms = every number). Every reached state (filter, n, outputs) is replayed on "
+         "the real ZFilter/LinearFilter built from lists, dicts and z-expressions with list/tuple/generator/callable "
+         "memories, and random filters up to order 7/6 and 16-24 samples are judged by TLC.",
+         "Coefficients integers or dyadic rationals (the library formats coefficients into source text); input "
+         "length <= 4 exhaustively, <= 24 randomly; memories of sufficient length. Trusted: TLC, LinForm "
+         "(40 lines of Fraction arithmetic), the dump parser.",
+         "DESIGN.md section 4 C04"),
  "C15": ("spec/core/MultiKeyDict.tla + StrategyDict.tla + trace/MultiKeyDictTrace.tla",
          "TLC full reachable state graph (refinement of the three-map machine to the key->value-with-recency "
          "definition) + transition-cover replay into the real objects + TLC trace validation of recorded histories",
